@@ -53,6 +53,9 @@ func checkC14(c *Check) {
 				}
 			}
 		}
+		if kind == "" {
+			continue // writes the state without starting an operation: not a start helper, R5 reports the write
+		}
 		sums[fn] = sum{sv, kind}
 	}
 	if len(sums) != 2 {
